@@ -295,7 +295,7 @@ func (c *FailoverController) ForceFailover(reason string) error {
 	}
 
 	// initiateFailover only marks the failover as in progress; carry it out
-	go c.executeFailover(reason)
+	go c.executeFailover(reason, true)
 	return nil
 }
 
@@ -344,7 +344,7 @@ func (c *FailoverController) handleHealthEvent(event HealthEvent) {
 				c.failoverTimer.Stop()
 			}
 			c.failoverTimer = time.AfterFunc(c.config.FailoverDelay, func() {
-				c.executeFailover("partner health check failure")
+				c.executeFailover("partner health check failure", false)
 			})
 		}
 
@@ -434,10 +434,17 @@ func (c *FailoverController) initiateFailover(reason string) error {
 }
 
 // executeFailover performs the actual failover.
-func (c *FailoverController) executeFailover(reason string) {
+// A forced failover has been marked in progress by initiateFailover; the
+// failover timer only carries out a failover that is still pending (a forced
+// failover or a cancellation may have overtaken it).
+func (c *FailoverController) executeFailover(reason string, forced bool) {
 	c.mu.Lock()
 
-	if c.state != FailoverStatePending && c.state != FailoverStateInProgress {
+	want := FailoverStatePending
+	if forced {
+		want = FailoverStateInProgress
+	}
+	if c.state != want {
 		c.mu.Unlock()
 		return
 	}
